@@ -5,7 +5,7 @@ from harness import common, layera as A, schemes as S
 
 from harness.known import replay_known  # noqa: F401
 
-MODULES = ["Univers.Props.C01"]
+MODULES = ["Univers.Props.C01", "Univers.Scheme.TablesThm"]
 LEVEL = "proof"
 RULE = ("per scheme: pairs of version texts (grammar, respelling, mutation streams) — real '<', '>' and the raw three-way "
         "routine against the Lean model (`vercmp`, refined to a lawful sort key by theorem); plus all ordered triples of a pool "
